@@ -33,8 +33,8 @@ func genC17(r *Rand, tier string, i int) *h.Scenario {
 		c.Notifier = 1 + r.Intn(2)
 	}
 	// the late-successor history is an open finding (F4b): keep most of the budget outside it
-	mode := r.Weighted(5, 4, 1, 3, 2) // 0 one successor, 1 several successors of one predecessor, 2 late successor, 3 chain, 4 two predecessors
-	sc.Mode = []string{"single", "fanout", "late", "chain", "twopred"}[mode]
+	mode := r.Weighted(5, 4, 1, 3, 2, 2) // 0 one successor, 1 several successors of one predecessor, 2 late successor, 3 chain, 4 two predecessors, 5 chain grown after a hand-over
+	sc.Mode = []string{"single", "fanout", "late", "chain", "twopred", "grow"}[mode]
 	newBar := func(after int) int {
 		b := h.BarSpec{QueueAfter: after, Total: int64(r.Range(1, 9)), Filler: r.Weighted(3, 1, 1, 3), RmOnComp: r.Bool(0.3), NoPop: r.Bool(0.3)}
 		if r.Bool(0.2) {
@@ -142,6 +142,17 @@ func genC17(r *Rand, tier string, i int) *h.Scenario {
 			ops = append(ops, h.Op{K: h.OpBarWait, Bar: pred}, h.Op{K: h.OpSleep, D: 6 * period})
 		}
 		addNow(pred)
+	case 5:
+		// a chain that keeps growing: the first hand-over has happened before the next links are queued
+		s1 := addNow(pred)
+		ops = append(ops, finish(pred)...)
+		ops = append(ops, h.Op{K: h.OpSleep, D: 6 * period})
+		s2 := addNow(s1)
+		s3 := addNow(s2)
+		if r.Bool(0.4) {
+			addNow(s1)
+		}
+		_ = s3
 	case 4:
 		// two predecessors that finish between the same two render cycles: both hand over in one flush
 		addNow(pred)
